@@ -9,9 +9,11 @@
 //   reset <fresh> <max_rx> <max_tx>        fresh=1: new object, 0: reset_pdu_buffer() on the used one; max_* = 0: default
 //   commit <len> <llid> <exact>            allocate_transmit_buffer (exact size or maximum), fill, commit_transmit_buffer
 //   read                                   next_received(); free_received() if there was a PDU
-//   x <out:lost|crc|mic|ok|enc> <ch> <len> <llid>   connection event, central -> peripheral (ch=1: new data PDU if the
-//                                          central may choose); enc = CRC ok on an encrypted link: MIC ok iff the buffer's
-//                                          receive packet counter equals the packet counter of the PDU
+//   x <out:lost|crc|mic|ok|enc> <ch> <len> <llid>   connection event, central -> peripheral; if the central may choose:
+//                                          ch=0 empty PDU, 1 new data PDU <len> <llid>, 2 PDU without payload and the
+//                                          reserved LLID 0, 3 new PDU with payload <len> and the reserved LLID 0 (it is
+//                                          numbered and encrypted like a data PDU); enc = CRC ok on an encrypted link:
+//                                          MIC ok iff the buffer's receive packet counter equals the packet counter of the PDU
 //   r <pout:lost|ok|nak>                   peripheral -> central
 //
 // Dispatch of the radio ISR (environment assumption "isr-dispatch", transcribed from
@@ -124,8 +126,9 @@ int run(const char* script, const char* trace) {
         else if (c.op == "x") {
             std::string out = c.w.at(0);
             if (!c_has) {
-                if (c.arg(1)) { c_cur.id = c_next++; c_cur.len = int(c.arg(2)); c_cur.llid = int(c.arg(3)); }
-                else          { c_cur.id = 0; c_cur.len = 0; c_cur.llid = 1; }
+                const int ch = int(c.arg(1));
+                if (ch & 1) { c_cur.id = c_next++; c_cur.len = int(c.arg(2)); c_cur.llid = (ch & 2) ? 0 : int(c.arg(3)); }
+                else        { c_cur.id = 0; c_cur.len = 0; c_cur.llid = (ch & 2) ? 0 : 1; }
                 c_has = true;
             }
             const int rx0 = b->rx_counter, tx0 = b->tx_counter;
